@@ -28,6 +28,8 @@ type opRec struct {
 
 var sleeps = []time.Duration{time.Second - time.Nanosecond, time.Second, time.Second + time.Nanosecond, 500 * time.Millisecond, 2 * time.Second, 3 * time.Second}
 
+const maxInjectedDelay = 1500 * time.Millisecond
+
 func capTTL(ttl, max int64) time.Duration {
 	if max > 0 && ttl > max {
 		ttl = max
@@ -192,8 +194,29 @@ func body(s *simrt.Sim, tier string) {
 						hadPrior = true // documented cleanup/refresh race needs an older entry of the same key
 					}
 				}
+				if hadPrior {
+					// ... and a cleanup pass that scanned the old entry before this Set wrote the new one and deleted
+					// after it: a manual Cleanup overlapping the Set, or a periodic pass (ticks fall on the grid
+					// start + k*interval; a pass can be stretched by the injected-delay budget, no further)
+					overlap := false
+					for _, o := range hist {
+						if o.kind == "Cleanup" && o.ret > src.inv && o.inv < src.ret {
+							overlap = true
+						}
+					}
+					if interval > 0 {
+						for tick := start.Add(interval); !tick.After(src.tRet); tick = tick.Add(interval) {
+							if !tick.Add(maxInjectedDelay).Before(src.tInv) {
+								overlap = true
+							}
+						}
+					}
+					if !overlap {
+						hadPrior = false
+					}
+				}
 				if sure && !hadPrior {
-					s.Fail("live-entry-missing", fmt.Sprintf("Get(%s) at %v missed although v%d (set at %v, ttl %v) is live, was never deleted or overwritten, and the key had no earlier entry a cleanup could have collected", g.key, g.tInv.Sub(start), src.val, src.tInv.Sub(start), capTTL(src.ttl, maxTTL)))
+					s.Fail("live-entry-missing", fmt.Sprintf("Get(%s) at %v missed although v%d (set at %v, ttl %v) is live, was never deleted or overwritten, and no cleanup pass overlapped that Set (the documented cleanup/refresh race needs an older entry of the key and a pass under way while it is replaced)", g.key, g.tInv.Sub(start), src.val, src.tInv.Sub(start), capTTL(src.ttl, maxTTL)))
 				}
 			}
 		}
@@ -224,7 +247,7 @@ func TestWorker(t *testing.T) {
 	common.Main(t, common.Harness{
 		ID:           "C15",
 		DelayPalette: []time.Duration{time.Millisecond, 100 * time.Millisecond, 600 * time.Millisecond},
-		MaxDelay:     1500 * time.Millisecond,
+		MaxDelay:     maxInjectedDelay,
 		Body:         body,
 	})
 }
